@@ -250,3 +250,32 @@ def si(ctx):
 
 
 RULES.append(si)
+
+
+@rule("X6", doc="every child of the extracted node is extracted for its own invocation: the children list is filled with the results of the recursive call on that very child, nothing is shared between siblings by class id / slot set")
+def x6(ctx):
+    crate = ctx.lib()
+    es = crate.method("extract::Extractor", "extract")
+    if len(es) != 1:
+        raise mir.AnchorMissing("Extractor::extract")
+    b = es[0]
+    n = 0
+    # values that end up in the children vector: pushes, or what a map closure that is collected returns
+    vals = []
+    for c in b.calls:
+        if c.callee and c.callee.name == "push" and not b.blocks[c.bb]["cleanup"] and "RecExpr" in b.local_ty(mir.op_place(c.args[0])["l"]):
+            vals.append((b, c.bb, b.role_of_operand(c.args[1])))
+    for cb in b.closures:
+        if "RecExpr" in cb.local_ty(0):
+            vals.append((cb, None, cb.role_of_local(0)))
+    for sub, bb, r in vals:
+        n += 1
+        sr = strip_role(r)
+        direct = isinstance(sr, tuple) and sr[0] == "call" and sr[1] == "extract" and b.id in (sub.call_at[sr[4]].callee.target if sr[4] in sub.call_at and sub.call_at[sr[4]].callee else "")
+        ctx.check(direct, "child-from-own-extraction:%s" % (bb if bb is not None else "closure"), "a child term is the result of extract(that child)",
+                  "Extractor::extract puts %s into the children list: a term that was not extracted for this child's own invocation. Two children that invoke the same class with the same slot SET but a different slot MAP (c[x,y] and c[y,x]) would share one term, and the extracted term is then not in the requested class" % role_str(sr)[:100],
+                  where_of(sub, bb) if bb is not None else where_of(sub))
+    ctx.floor("child terms of the extracted node", n, 1)
+
+
+RULES.append(x6)
